@@ -62,7 +62,9 @@ impl SignedRegister {
     /// Verfies a SignedRegister
     pub fn verify(&self) -> Result<()> {
         let reg_size = self.ops.len();
-        if reg_size >= MAX_REG_NUM_ENTRIES as usize {
+        // add_op admits entries while fewer than MAX_REG_NUM_ENTRIES are held,
+        // so a register holding exactly MAX_REG_NUM_ENTRIES entries is valid
+        if reg_size > MAX_REG_NUM_ENTRIES as usize {
             return Err(Error::TooManyEntries(reg_size));
         }
 
